@@ -824,3 +824,108 @@ Proof.
         rewrite Hsn in Hin. eapply children_first_g; eauto.
       * rewrite (postb_snap_stable _ _ _ _ _ I Hs Hb) in Hin. apply older_cons. apply IH; assumption.
 Qed.
+
+(* ---------------------------------------------------------------- executable runs *)
+Fixpoint run_ok (ws : bool) (s : st) (ls : list label) : option st :=
+  match ls with
+  | [] => Some s
+  | l :: ls' => if step_ok s l then match step ws s l with Some s' => run_ok ws s' ls' | None => None end else None
+  end.
+
+Lemma run_reach ws ls : forall s s', reach ws s -> run ws s ls = Some s' -> reach ws s'.
+Proof.
+  induction ls as [|l ls IH]; simpl; intros s s' Hr H; [now injection H as <-|].
+  destruct (step ws s l) eqn:E; [|discriminate]. eapply IH; [|exact H]. econstructor; eauto.
+Qed.
+Lemma run_ok_reach_rf ws ls : forall s s', reach_rf ws s -> run_ok ws s ls = Some s' -> reach_rf ws s'.
+Proof.
+  induction ls as [|l ls IH]; simpl; intros s s' Hr H; [now injection H as <-|].
+  destruct (step_ok s l) eqn:Eo; [|discriminate].
+  destruct (step ws s l) eqn:E; [|discriminate]. eapply IH; [|exact H]. econstructor; eauto.
+Qed.
+
+Definition spawn (p c : nat) : list label := [LSpawnCheck p c; LSpawnInit c; LSpawnAdd c].
+(* Shutdown of a leaf up to (not including) the end of its PostStop *)
+Definition stop_leaf_begin (a : nat) : list label := [LStopBegin a; LSnapshot a; LPostBegin a].
+
+Definition bmem (e : ev) (tr : list ev) : bool :=
+  existsb (fun x => match x, e with
+                    | EPre a, EPre b | EPostB a, EPostB b | EPostE a, EPostE b => Nat.eqb a b
+                    | _, _ => false end) tr.
+Lemma bmem_false e tr : bmem e tr = false -> ~ In e tr.
+Proof.
+  unfold bmem. intros H Hin. assert (existsb (fun x => match x, e with
+                    | EPre a, EPre b | EPostB a, EPostB b | EPostE a, EPostE b => Nat.eqb a b
+                    | _, _ => false end) tr = true); [|congruence].
+  apply existsb_exists. exists e. split; [assumption|]. destruct e; apply Nat.eqb_refl.
+Qed.
+
+(* WITNESS 1 (code as it is, ws = false): Kill(child) is inside the child's PostStop when the
+   parent is shut down; the parent's disown goroutine sees IsRunning(child) = false, skips it, and
+   the parent's PostStop begins (and Shutdown(parent) returns) while the child's PostStop has not
+   completed. *)
+Definition witness_concurrent_stop : list label :=
+  spawn 0 1 ++ spawn 1 2 ++ stop_leaf_begin 2 ++
+  [LStopBegin 1; LSnapshot 1; LDisownTest 1 2; LPostBegin 1; LPostEnd 1].
+
+Theorem concurrent_stop_refuted :
+  exists s, run false init witness_concurrent_stop = Some s /\ reach false s /\
+    In 2 (snap (acts s 1)) /\ In (EPostB 1) (trace s) /\ In (EPostE 1) (trace s) /\
+    running (acts s 1) = false /\          (* Shutdown(parent) has returned *)
+    ~ In (EPostE 2) (trace s) /\ sp (acts s 2) = SPost.   (* the child's PostStop is still running *)
+Proof.
+  destruct (run false init witness_concurrent_stop) as [s|] eqn:E; [|vm_compute in E; discriminate].
+  exists s. split; [reflexivity|]. split; [eapply run_reach; [constructor|exact E]|].
+  vm_compute in E. injection E as <-. simpl.
+  repeat split; auto; try tauto. intuition discriminate.
+Qed.
+
+(* the same labels are not a run of the repaired disown test: the goroutine waits for the child *)
+Example concurrent_stop_blocked_when_repaired : run true init witness_concurrent_stop = None.
+Proof. vm_compute. reflexivity. Qed.
+
+(* WITNESS 2 (either variant): SpawnChild tested IsRunning(parent) before the parent's Shutdown
+   took its children snapshot, the child's PreStart finishes afterwards: the child runs under a
+   stopped parent (and, the death watch having removed the parent, is not even in the tree). *)
+Definition witness_spawn_race : list label :=
+  spawn 0 1 ++ [LSpawnCheck 1 2; LSpawnInit 2; LStopBegin 1; LSnapshot 1; LPostBegin 1; LPostEnd 1; LReap 1; LSpawnAdd 2].
+
+Theorem spawn_race_refuted : forall ws,
+  exists s, run ws init witness_spawn_race = Some s /\ reach ws s /\
+    par (acts s 2) = Some 1 /\ running (acts s 2) = true /\ stopping (acts s 2) = false /\
+    started (acts s 1) = true /\ running (acts s 1) = false /\ In (EPostE 1) (trace s) /\
+    reg (acts s 2) = false.
+Proof.
+  intros ws.
+  destruct (run ws init witness_spawn_race) as [s|] eqn:E; [|destruct ws; vm_compute in E; discriminate].
+  exists s. split; [reflexivity|]. split; [eapply run_reach; [constructor|exact E]|].
+  destruct ws; vm_compute in E; injection E as <-; simpl; repeat split; auto.
+Qed.
+
+(* the witness is exactly the guarded case: it is not race-free *)
+Example spawn_race_not_race_free : run_ok false init witness_spawn_race = None.
+Proof. vm_compute. reflexivity. Qed.
+Example concurrent_stop_not_race_free : run_ok false init witness_concurrent_stop = None.
+Proof. vm_compute. reflexivity. Qed.
+
+(* EXAMPLE: the hypotheses of the guarded theorems are met by a non-trivial race-free run:
+   a three-level tree 0 - 1 - {2,3}, 3 - 4, Shutdown(1) driven to the point where PostStop of 1
+   is about to begin with a non-empty snapshot, children and grandchild stopped first. *)
+Definition stop_leaf (a : nat) : list label := stop_leaf_begin a ++ [LPostEnd a].
+Definition example_run : list label :=
+  spawn 0 1 ++ spawn 1 2 ++ spawn 1 3 ++ spawn 3 4 ++
+  [LStopBegin 1; LSnapshot 1; LDisownTest 1 2; LDisownTest 1 3] ++
+  stop_leaf 2 ++ [LDisownDone 1 2] ++
+  [LStopBegin 3; LSnapshot 3; LDisownTest 3 4] ++ stop_leaf 4 ++ [LDisownDone 3 4; LPostBegin 3; LPostEnd 3; LDisownDone 1 3].
+
+Example example_race_free :
+  exists s s', run_ok false init example_run = Some s /\ reach_rf false s /\
+    snap (acts s 1) = [2; 3] /\ chain s 1 4 /\ step false s (LPostBegin 1) = Some s'.
+Proof.
+  destruct (run_ok false init example_run) as [s|] eqn:E; [|vm_compute in E; discriminate].
+  destruct (step false s (LPostBegin 1)) as [s'|] eqn:E'.
+  - exists s, s'. split; [reflexivity|]. split; [eapply run_ok_reach_rf; [constructor|exact E]|].
+    vm_compute in E. injection E as <-. split; [reflexivity|]. split; [|exact E'].
+    apply chain_more with (c := 3); simpl; [auto|]. apply chain_one. simpl. auto.
+  - vm_compute in E. injection E as <-. vm_compute in E'. discriminate.
+Qed.
